@@ -339,6 +339,8 @@ def fold_renames(facts, config):
                 cand = sorted(((jac(ref[m]["calls"], cur[n_]["calls"]), m) for m in missing if same(ref[m], cur[n_])), reverse=True)
                 if not cand:
                     continue
+                if cand[0][0] < 0.3 and (ref[cand[0][1]]["calls"] or cur[n_]["calls"]):
+                    continue          # same place and signature but it does something else: a different function, not a renamed one
                 if len(cand) == 1 or cand[0][0] - cand[1][0] >= 0.2:
                     pairs.append((n_, cand[0][1], cand[0][0]))
             taken = {}
